@@ -46,7 +46,10 @@ type sexpr struct {
 	src  string
 }
 
+var curProp string // the property being checked (clauses may be scoped to properties)
+
 type clause struct {
+	scope []string // properties this clause is active for (empty: all)
 	kind  string // requires ensures invariant assert use decreases
 	label string
 	e     *sexpr
@@ -67,6 +70,7 @@ type loopSpec struct {
 	steps    []*clause // kind "step": label = name, e = new value (evaluated at every back edge)
 	uses     []*clause // lemma/axiom instances assumed at the loop head
 	backUses []*clause // proof steps taken at every back edge, before the invariants are checked
+	cut      bool // cut point: paths end here after asserting the invariant; the loop is verified once from a generic state
 	bodyUses []*clause // proof steps taken when the loop body is entered (loop condition known)
 }
 
@@ -345,12 +349,19 @@ func (fc *funcContract) addClause(kw, rest string, line int) error {
 		}
 		fc.panicsIf = &clause{kind: "panics-unless", e: e, src: rest, line: line}
 	case "requires", "ensures":
+		var scope []string
+		if strings.HasPrefix(rest, "[") {
+			if k := strings.Index(rest, "]"); k > 0 {
+				scope = strings.Fields(strings.ReplaceAll(rest[1:k], ",", " "))
+				rest = strings.TrimSpace(rest[k+1:])
+			}
+		}
 		label, body := splitLabel(rest)
 		e, err := parseSexpr(body)
 		if err != nil {
 			return err
 		}
-		c := &clause{kind: kw, label: label, e: e, src: body, deep: deep, line: line}
+		c := &clause{kind: kw, label: label, e: e, src: body, deep: deep, line: line, scope: scope}
 		if kw == "requires" {
 			fc.requires = append(fc.requires, c)
 		} else {
@@ -404,7 +415,7 @@ func (fc *funcContract) addClause(kw, rest string, line int) error {
 			hint = rest[len(m0):end]
 			rest = strings.TrimSpace(m0[:len(m0)-1]) + " " + rest[end+1:]
 		}
-		m := regexp.MustCompile(`^(\d+)\s*()()(invariant|unroll|decreases|ghost|step|use|inbody|backedge)\s*(.*)$`).FindStringSubmatch(rest)
+		m := regexp.MustCompile(`^(\d+)\s*()()(invariant|unroll|decreases|ghost|step|use|inbody|backedge|cutpoint)\s*(.*)$`).FindStringSubmatch(rest)
 		if m == nil {
 			return fmt.Errorf("bad loop clause: %s", rest)
 		}
@@ -422,6 +433,8 @@ func (fc *funcContract) addClause(kw, rest string, line int) error {
 			ls.hint = m[3]
 		}
 		switch m[4] {
+		case "cutpoint":
+			ls.cut = true
 		case "unroll":
 			n, err := strconv.Atoi(strings.TrimSpace(m[5]))
 			if err != nil {
@@ -855,4 +868,16 @@ func (p *sparser) rewrite(s string) (string, error) {
 		i = j
 	}
 	return sb.String(), nil
+}
+
+func (c *clause) active() bool {
+	if len(c.scope) == 0 {
+		return true
+	}
+	for _, p := range c.scope {
+		if p == curProp {
+			return true
+		}
+	}
+	return false
 }
